@@ -324,9 +324,14 @@ def check_case(C, tmp, text, update, remove):
         return r, fails, tags
 
     def sig3(n, sig):
-        par = n.parent
-        if id(n) in big_ids or (par is not None and id(par) in big_ids):
-            return "C19:cp2k:third-duplicate-bare-key"
+        # the node, or any section it lies in, is a member of a >=3 same-path group: one member of such a
+        # group is registered under the bare path, so an update/remove addressed to it (and with it to its
+        # whole subtree) is not applied — which member depends on the set order, that one fails does not
+        m = n
+        while m is not None:
+            if id(m) in big_ids:
+                return "C19:cp2k:third-duplicate-bare-key"
+            m = snap[id(m)][3] if id(m) in snap else m.parent
         return sig
 
     final_all = all_nodes(rec["nodes"])
